@@ -376,6 +376,9 @@ def finish(ctx, level, coverage, assumptions):
     }
     # X.. ids are spec-coverage extras (behaviour outside the 20 listed properties): same machinery, own evidence directory
     evdir = os.path.join(VERIF, "evidence_extra" if ctx.pid.startswith("X") else "evidence")
+    if os.path.realpath(REPO) != "/repo":
+        # a run against another tree (seeded change in a scratch worktree) must not overwrite the evidence about /repo
+        evdir = os.path.join(VERIF, "out", "evidence_other_tree")
     os.makedirs(evdir, exist_ok=True)
     with open(os.path.join(evdir, ctx.pid + ".json"), "w") as fh:
         json.dump(ev, fh, indent=1, sort_keys=True, default=str)
